@@ -579,6 +579,24 @@ do_ctr(char * l)
 			unsigned long long n2 = strtoull(p + 1, (char **)&p, 10);
 			crypto_aesctr_init2(s, NULL, n2);
 			fprintf(vt_out, "%s[\"R\",\"%llu\",%zu]", i ? "," : "", n2, off);
+		} else if (*p == 'K') {
+			/* K<hexkey>:<nonce> : the key is released, another one (possibly of the other length) is expanded - by a recycling
+			 * allocator, so that it is the same object address - and the same stream object is re-initialised with it */
+			char k2hex[80];
+			size_t k2len, j = 0;
+			unsigned long long n2;
+			static uint8_t key2[64];
+			for (p++; *p && *p != ':' && j < 79; p++) k2hex[j++] = *p;
+			k2hex[j] = 0;
+			n2 = (*p == ':') ? strtoull(p + 1, (char **)&p, 10) : 0;
+			k2len = unhex(k2hex, key2, 64);
+			aw_recycle(1);
+			crypto_aes_key_free(k);
+			secret_add(key2, k2len, "raw AES key (second)");
+			k = crypto_aes_key_expand(key2, k2len);
+			aw_recycle(0);
+			crypto_aesctr_init2(s, k, n2);
+			fprintf(vt_out, "%s[\"K\",\"%llu\",%zu,\"%s\"]", i ? "," : "", n2, off, k2hex);
 		} else {
 			long n = strtol(p, (char **)&p, 10);
 			if ((size_t)n > len - off) n = (long)(len - off);
